@@ -61,6 +61,7 @@ func Sleep(ctx context.Context, args ...object.Object) object.Object {
 	defer timer.Stop()
 	select {
 	case <-ctx.Done():
+		return object.NewError(ctx.Err())
 	case <-timer.C:
 	}
 	return object.Nil
